@@ -3,11 +3,11 @@
 package main
 
 import (
-	"path/filepath"
 	"encoding/json"
 	"flag"
 	"fmt"
 	"os"
+	"path/filepath"
 	"runtime/debug"
 	"sort"
 	"strconv"
@@ -254,6 +254,26 @@ func doDump(what, repo string) int {
 		}
 	case "inline":
 		fs := newFormSet(prog, loadOptions{})
+		if spec := os.Getenv("RESTCHECK_DUMP_FORM"); spec != "" {
+			parts := strings.SplitN(spec, ":", 3)
+			rounds, _ := strconv.Atoi(parts[1])
+			var tg []string
+			if len(parts) == 3 && parts[2] != "" {
+				tg = strings.Split(parts[2], ",")
+			}
+			nf := fs.form(parts[0], rounds, tg)
+			if nf.Err != nil {
+				fmt.Println("ERROR:", nf.Err)
+				return 1
+			}
+			d := os.Getenv("RESTCHECK_DUMP_DIR")
+			os.MkdirAll(d, 0o755)
+			for name, b := range nf.Prog.Overlay {
+				os.WriteFile(filepath.Join(d, filepath.Base(name)), b, 0o644)
+			}
+			fmt.Printf("form %s: %d calls inlined, written to %s\n", nf.Name, nf.N, d)
+			return 0
+		}
 		for _, nfo := range normalFormOrder {
 			nf := fs.form(nfo.kind, nfo.rounds, nil)
 			if nf.Err != nil {
